@@ -170,3 +170,63 @@ func TestFindingF14_XRUnalignedBlocks(t *testing.T) {
 		}
 	}
 }
+
+// F15 (open): bounded fields that the encoders cut to their wire width instead of rejecting.
+func TestFindingF15_SilentMasking(t *testing.T) {
+	type tc struct {
+		name string
+		enc  func() ([]byte, error)
+		want string // what a faithful encoding would need
+	}
+	cases := []tc{
+		{"SLI First=0x3FFF (13 bits)", func() ([]byte, error) {
+			return SliceLossIndication{SLI: []SLIEntry{{First: 0x3FFF}}}.Marshal()
+		}, ""},
+		{"SLI Number=0x2000 (13 bits)", func() ([]byte, error) {
+			return SliceLossIndication{SLI: []SLIEntry{{Number: 0x2000}}}.Marshal()
+		}, ""},
+		{"SLI Picture=0x40 (6 bits)", func() ([]byte, error) {
+			return SliceLossIndication{SLI: []SLIEntry{{Picture: 0x40}}}.Marshal()
+		}, ""},
+		{"RunLengthChunk PacketStatusSymbol=5 (2 bits)", func() ([]byte, error) {
+			return RunLengthChunk{PacketStatusSymbol: 5, RunLength: 1}.Marshal()
+		}, ""},
+		{"RunLengthChunk RunLength=0x2001 (13 bits)", func() ([]byte, error) {
+			return RunLengthChunk{PacketStatusSymbol: 1, RunLength: 0x2001}.Marshal()
+		}, ""},
+		{"StatusVectorChunk SymbolSize=2 (1 bit)", func() ([]byte, error) {
+			return StatusVectorChunk{SymbolSize: 2, SymbolList: []uint16{1, 1}}.Marshal()
+		}, ""},
+		{"StatusVectorChunk symbol=2 with one-bit symbols", func() ([]byte, error) {
+			return StatusVectorChunk{SymbolSize: 0, SymbolList: []uint16{2}}.Marshal()
+		}, ""},
+		{"CCFB ECN=7 (2 bits)", func() ([]byte, error) {
+			return CCFeedbackMetricBlock{Received: true, ECN: 7}.marshal()
+		}, ""},
+		{"CCFB ArrivalTimeOffset=0x2000 (13 bits)", func() ([]byte, error) {
+			return CCFeedbackMetricBlock{Received: true, ArrivalTimeOffset: 0x2000}.marshal()
+		}, ""},
+		{"TWCC ReferenceTime=1<<24 (24 bits)", func() ([]byte, error) {
+			return TransportLayerCC{Header: Header{Count: FormatTCC, Type: TypeTransportSpecificFeedback, Length: 4}, ReferenceTime: 1 << 24}.Marshal()
+		}, ""},
+		{"XR LossRLE T=16 (4 bits)", func() ([]byte, error) {
+			return ExtendedReport{Reports: []ReportBlock{&LossRLEReportBlock{XRHeader: XRHeader{BlockType: LossRLEReportBlockType}, T: 16}}}.Marshal()
+		}, ""},
+		{"XR DuplicateRLE T=16 (4 bits)", func() ([]byte, error) {
+			return ExtendedReport{Reports: []ReportBlock{&DuplicateRLEReportBlock{XRHeader: XRHeader{BlockType: DuplicateRLEReportBlockType}, T: 16}}}.Marshal()
+		}, ""},
+		{"XR PacketReceiptTimes T=16 (4 bits)", func() ([]byte, error) {
+			return ExtendedReport{Reports: []ReportBlock{&PacketReceiptTimesReportBlock{XRHeader: XRHeader{BlockType: PacketReceiptTimesReportBlockType}, T: 16}}}.Marshal()
+		}, ""},
+		{"XR StatisticsSummary TTLorHopLimit=4 (2 bits)", func() ([]byte, error) {
+			return ExtendedReport{Reports: []ReportBlock{&StatisticsSummaryReportBlock{XRHeader: XRHeader{BlockType: StatisticsSummaryReportBlockType}, TTLorHopLimit: 4}}}.Marshal()
+		}, ""},
+	}
+	for _, c := range cases {
+		b, err := c.enc()
+		if err != nil {
+			continue // rejecting the value is what the property asks for
+		}
+		t.Errorf("%s: Marshal succeeded (%x): the out-of-range value was cut to the field width", c.name, b)
+	}
+}
